@@ -22,7 +22,7 @@ def bounds(tier):
 ALIGN_DOMAIN = [0, 1, 2, 3, 8, 1 << 31, 1 << 32, 1 << 62, 1 << 63, (1 << 64) - 1]
 
 
-def layout_assume(a, n, ps, kinds, align_domain=False):
+def layout_assume(a, n, ps, kinds, align_domain=False, named=True):
     A = [a[0] == ps, a[1] == n]
     if align_domain:
         # two fields: the alignments of the extern types range over a list of boundary values (the gcd/lcm loops over two unconstrained
@@ -33,7 +33,7 @@ def layout_assume(a, n, ps, kinds, align_domain=False):
         b = NHEAD + STRIDE * i
         A.append(z3.Or(*[a[b] == k for k in kinds]))
         A.append(a[b + 1] == 13)
-        A.append(z3.ULE(a[b + 3], 1)); A.append(a[b + 7] == 1)
+        A.append(z3.ULE(a[b + 3], 1)); A.append(a[b + 7] == 1 if named else z3.ULE(a[b + 7], 1))
     return A
 
 
@@ -88,6 +88,11 @@ def slices(tier, rng):
                              opts={'summarize': [], 'must_reach': ['ok', 'err'], 'time_limit': 900}, ctx={'n': n, 'desc': 'layout'}))
     # two fields whose extern types carry concrete boundary alignments (the gcd / lcm loops over two unconstrained 64-bit alignments do
     # not finish in the solver): the products that `lcm` and the size computations form reach 2^64.  Sizes, counts, addresses stay unconstrained.
+    # two fields, named or `_`, with free explicit addresses (overlaps, out-of-order addresses, padding before unnamed regions)
+    out.append(Slice('layout-n2-unnamed-ps8', 't_layout', NHEAD + STRIDE * 2,
+                     lambda a: layout_assume(a, 2, 8, [0], named=False) + [a[NHEAD + 6] == 1, a[NHEAD + STRIDE + 6] == 4, a[6] == 0, a[2] == 0, a[4] == 0] +
+                               [z3.ULT(a[NHEAD + STRIDE * i + 5], 1 << 16) for i in range(2)] + [z3.ULT(a[NHEAD + STRIDE * i + 4], 1 << 32) for i in range(2)],
+                     opts={'summarize': [], 'must_reach': ['ok', 'err'], 'time_limit': 600}, ctx={'n': 2, 'desc': 'layout'}))
     if tier == 'quick':
         pairs = [(1 << 62, 4, [0]), (1 << 32, 1 << 32, [0])]
     else:
